@@ -407,12 +407,21 @@ def _analyze_redirects(
             continue
 
         # Skip safe redirects
-        # ("-" only means stdout for tools that say so; after a shell operator it is a file name)
-        if (target in SAFE_REDIRECT_TARGETS and target != "-") or target.startswith("&"):
+        # ("-" only means stdout for tools that say so; after a shell operator it is a file name;
+        # a quoted '&1' is a file name too, only a bare & duplicates a descriptor)
+        raw_target = getattr(r.target, "value", "") if r.target else ""
+        if (target in SAFE_REDIRECT_TARGETS and target != "-") or raw_target.startswith(
+            "&"
+        ):
             continue
 
         # Check output redirects against config
         if _is_write_redirect(op):
+            if _has_inner_quoting(target):
+                # /tmp/out/".."/x, /tmp/out/\.\./x: bash removes the quotes before it opens the
+                # file; the spelling cannot be matched against path rules as it stands
+                decisions.append(Decision("ask", f"redirect to {target}"))
+                continue
             redirect_match = match_redirect(target, config, cwd)
             if redirect_match:
                 if redirect_match.decision == "allow":
@@ -527,6 +536,8 @@ def _analyze_simple_command(
                 # Skip safe redirect targets
                 if target in SAFE_REDIRECT_TARGETS:
                     continue
+                if _has_inner_quoting(target):
+                    return Decision("ask", desc)
                 redirect_match = match_redirect(target, config, cwd)
                 if redirect_match:
                     if redirect_match.decision == "deny":
@@ -578,6 +589,11 @@ def _get_word_value(word) -> str:
     else:
         value = getattr(word, "value", str(word))
     return _strip_quotes(value)
+
+
+def _has_inner_quoting(value: str) -> bool:
+    """True if quote characters or backslashes remain after the outer pair was stripped."""
+    return any(ch in value for ch in "'\"\\")
 
 
 def _strip_quotes(value: str) -> str:
